@@ -118,7 +118,8 @@ func (c *ctx) codecCase(id xsens.DataIdentifier, wire uint16, data []byte) {
 			return
 		}
 		dec = "(ROk " + valueTerm(pre) + ")"
-		p, err := pre.MarshalMTData2Packet(id)
+		// re-encode under the identifier the packet itself carries (as decoded from its header)
+		p, err := pre.MarshalMTData2Packet(xsens.MTData2Packet(exact(pkt)).Identifier())
 		if err != nil {
 			reenc = "RErr"
 			return
@@ -219,6 +220,80 @@ func init() {
 		}
 	}
 
+	c05types := func(c *ctx) {
+		// the fixed-point conversions as the measurement types use them: decode of boundary patterns, encode of
+		// boundary values, for a scalar, a pair, a vector, a quaternion and a matrix type
+		types := []xsens.DataType{xsens.DataTypeTemperature, xsens.DataTypeAltitudeEllipsoid, xsens.DataTypeLatLon,
+			xsens.DataTypeAcceleration, xsens.DataTypeQuaternion, xsens.DataTypeRotationMatrix}
+		edges := [][]byte{{0x80, 0, 0, 0}, {0x80, 0, 0, 1}, {0x7f, 0xff, 0xff, 0xff}, {0xff, 0xff, 0xff, 0xff}, {0, 0, 0, 0}, {0x80, 0xff, 0xff, 0xff}, {0x81, 0, 0, 0}}
+		edges6 := [][]byte{{0, 0, 0, 0, 0x80, 0}, {0, 0, 0, 1, 0x80, 0}, {0xff, 0xff, 0xff, 0xff, 0x80, 0xff}, {0xff, 0xff, 0xff, 0xff, 0x7f, 0xff},
+			{0xff, 0xff, 0xff, 0xff, 0xff, 0xff}, {0, 0, 0, 0, 0x81, 0}, {0x12, 0x34, 0x56, 0x78, 0x80, 0x44}, {0, 0, 0, 0, 0, 0}}
+		for _, t := range types {
+			for prec := 1; prec <= 2; prec++ {
+				id := xsens.DataIdentifier{DataType: t, Precision: xsens.Precision(prec)}
+				n := int(id.DataSize())
+				w := 4
+				set := edges
+				if prec == 2 {
+					w, set = 6, edges6
+				}
+				for k := 0; k < len(set); k++ {
+					data := make([]byte, 0, n)
+					for len(data) < n {
+						data = append(data, set[(k+len(data)/w)%len(set)]...)
+					}
+					c.codecCase(id, id.Uint16(), data[:n])
+				}
+			}
+		}
+		top12, top16 := math.Nextafter(2048, 0), math.Nextafter(32768, 0)
+		vals := []float64{top12, 2048 - math.Pow(2, -21), 2048 - math.Pow(2, -20), 2047.9999995, -2048, -2047.9999999, 2047, 0.5, -0.5,
+			top16, 32768 - math.Pow(2, -33), 32768 - math.Pow(2, -32), 32767.5, -32768, -32767.75, 1000.5, -300.25, 256, -256.5}
+		for _, t := range types {
+			for prec := 1; prec <= 2; prec++ {
+				id := xsens.DataIdentifier{DataType: t, Precision: xsens.Precision(prec)}
+				md := valueOfType(id)
+				if md == nil {
+					continue
+				}
+				ty := reflect.TypeOf(md).Elem().Name()
+				for k := 0; k < len(vals); k++ {
+					idx := 0
+					var set func(v reflect.Value)
+					set = func(v reflect.Value) {
+						switch v.Kind() {
+						case reflect.Struct:
+							for i := 0; i < v.NumField(); i++ {
+								set(v.Field(i))
+							}
+						case reflect.Float64:
+							f := vals[(k+idx)%len(vals)]
+							if prec == 1 && math.Abs(f) >= 2048 && f != -2048 {
+								f = vals[(k+idx)%9]
+							}
+							v.SetFloat(f)
+							idx++
+						}
+					}
+					set(reflect.ValueOf(md).Elem())
+					r := "RPan"
+					protect(func() {
+						p, err := md.MarshalMTData2Packet(id)
+						if err != nil {
+							r = "RErr"
+						} else {
+							r = "(ROk " + nlist(p) + ")"
+						}
+					})
+					c.emit("enc", tup("\""+ty+"\"", zs(int64(id.Uint16()))+"%Z", valueTerm(md), r))
+				}
+			}
+		}
+	}
+	defer func() {
+		fp := props["C05"]
+		props["C05"] = func(c *ctx) { fp(c); c05types(c) }
+	}()
 	props["C05"] = func(c *ctx) {
 		fp12 := func(b [4]byte) {
 			fp := xsens.FP1220(b)
